@@ -245,6 +245,28 @@ var cleanValuePool = []string{"", "v", "a b", "a: b", "a:b", "x=y", "=", "?", "=
 
 func genC19(r *rng, n int, tier string, emit func(string, ...string)) {
 	genWfault(r, n/10+20, emit)
+	// logical header lines around the sizes at which a reader might give up (4 KiB, 64 KiB read buffers): one physical line
+	// of exactly that length, or a folded field whose unfolded value exceeds it - the serialization puts it on ONE line
+	for _, total := range []int{4095, 4096, 4097, 65535, 65536, 65537, 66000} {
+		name := "X-Long:"
+		line := name + strings.Repeat("v", total-len(name)-2) + "\r\n"
+		for syn := 0; syn <= 2; syn++ {
+			emit("hdrparse", strconv.Itoa(syn), "f", hx([]byte("WARC-Type: resource\r\n"+line+"\r\n")))
+		}
+		stat("hdr-class", "long-line")
+	}
+	{
+		var sb strings.Builder
+		sb.WriteString("X-Folded: start\r\n")
+		for sb.Len() < 66100 {
+			sb.WriteString(" " + strings.Repeat("f", 59) + "\r\n")
+		}
+		sb.WriteString("\r\n")
+		for syn := 0; syn <= 2; syn++ {
+			emit("hdrparse", strconv.Itoa(syn), "f", hx([]byte(sb.String())))
+		}
+		stat("hdr-class", "long-folded")
+	}
 	for i := 0; i < n; i++ {
 		b := genHeaderSection(r)
 		fault := r.chance(1, 15)
@@ -281,6 +303,11 @@ func genC19(r *rng, n int, tier string, emit func(string, ...string)) {
 		} else {
 			emit("apiparse", strings.Join(l, ","))
 		}
+	}
+	// values set through the API whose serialized line reaches the sizes of read buffers (4 KiB, 64 KiB)
+	for _, vlen := range []int{4096 - 25, 4096 - 24, 65536 - 25, 65536 - 24, 65536 - 23, 65536, 70000} {
+		emit("apiparse", hxs("WARC-Target-URI")+":"+hxs("http://example.com/"+strings.Repeat("u", vlen-19)))
+		stat("hdr-class", "long-api-value")
 	}
 }
 
